@@ -47,6 +47,28 @@ func (p *Prog) decodeScope() (map[*ssa.Function]bool, []string) {
 			}
 		}
 	}
+	// closures built by functions in scope and handed on as func values (e.g. the reference-resolving type-info
+	// decoder) run during decoding too, wherever they are eventually called
+	for changed := true; changed; {
+		changed = false
+		for f := range scope {
+			for _, an := range f.AnonFuncs {
+				if scope[an] || p.IsTestFile(an.Pos()) {
+					continue
+				}
+				for g := range p.ReachFine(an) {
+					if (g.Pkg == p.RootSSA || TopLevel(g).Pkg == p.RootSSA) && !p.IsTestFile(g.Pos()) && !scope[g] {
+						scope[g] = true
+						changed = true
+					}
+				}
+				if !scope[an] {
+					scope[an] = true
+					changed = true
+				}
+			}
+		}
+	}
 	return scope, names
 }
 
